@@ -382,6 +382,16 @@ func (r *Runner) compareLogs(model, real []Entry, id int64, res *StepResult) {
 			}
 		}
 		model = m2
+	} else {
+		// listeners an instance does not register cannot report
+		var m2 []Entry
+		for _, e := range model {
+			if e.Pol >= 0 && e.Pol < len(r.Sc.Pool) && r.Sc.Pool[e.Pol].Muted(strings.TrimSuffix(e.Name, "?")) {
+				continue
+			}
+			m2 = append(m2, e)
+		}
+		model = m2
 	}
 	type key struct {
 		pol  int
